@@ -572,7 +572,19 @@ func (g *gen) addConc(o concObs, tag string) {
 	}
 	term := t.wrap(emit.App("CConc", boolCoq(o.Known), hsT, u64(o.Before), emit.List(ys), u64(o.After)))
 	js := map[string]interface{}{"kind": "rr-concurrent-fixed", "hosts": o.Hosts, "callers": o.K, "calls_per_caller": o.Calls,
-		"counter_before": fmt.Sprint(o.Before), "counter_after": fmt.Sprint(o.After), "observed_per_caller": perJS, "pass": tag}
+		"counter_before": fmt.Sprint(o.Before), "counter_after": fmt.Sprint(o.After), "pass": tag}
+	total := 0
+	cnt := map[string]int{}
+	for _, p := range o.Per {
+		total += len(p)
+		for _, x := range p {
+			cnt[x.Kind+":"+x.Host]++
+		}
+	}
+	js["observed_counts"] = cnt
+	if total <= 2000 {
+		js["observed_per_caller"] = perJS
+	}
 	g.w.Count("rr-concurrent:" + tag)
 	g.w.Count(fmt.Sprintf("callers:%02d", o.K))
 	g.w.Add(term, js, "", fmt.Sprintf("CC|%s|%d|%d|%d", tag, len(o.Hosts), o.K, o.Calls), len(o.Hosts) > 1 && o.K > 1)
@@ -668,6 +680,7 @@ func (g *gen) mainPass() {
 	g.allMiddlewareConstructors()
 	g.sharedSlices()
 	g.instanceReuse()
+	g.builtOnOneProc()
 	g.stableHistories()
 	g.requestReuse()
 
@@ -744,5 +757,5 @@ func (g *gen) mainPass() {
 		g.u32batch(100)
 	}
 	g.w.Meta["uint32n_triples"] = nb * 100
-	g.w.Close("regression corpus (single host, empty/nil list, counter at and across the uint64 wrap, duplicate entries); the sd constructors (which balancer is built for GOMAXPROCS 1/2/16 x fixed/other subscriber x sizes, start of the counter); every exported middleware constructor of proxy/balancing.go by name, the balancer looked up in the model's table (generic ones with GOMAXPROCS = 1 and > 1; round robin: fairness of the hosts the next proxy sees, GOMAXPROCS > 1; random: membership + share; generic: membership; subscriber variants also over scripted dynamic subscribers); a stable list with failing lookups in between (patterns Sa, Se, aS, Saa, SaeSnbS, SSSSa, SbS, single failure, random; Host() and the round robin middlewares; concurrent callers with every other lookup failing); request reuse through every subscriber-taking middleware constructor (same request object / CloneRequest / Clone() sent again after the list changed to other hosts, empty, an error; a fixed list with one request re-sent M times); a host slice shared between a round robin balancer (mid cycle) and sd.NewRandomFixedSubscriber, sizes up to 150 (thorough 257), slice compared before/after; instance reuse (one balancer: sequence, concurrent burst, sequence; one middleware instance under concurrent callers with distinct requests); every list size 0..64 x constructors (FixedSubscriber with lura's own start position / SubscriberFunc with the counter set through the hook) x call counts {n, 2n+1, 3n+2} (thorough: 8 call counts, 4 counter positions) sequentially, and through the round robin middleware; scripted dynamic subscribers (errors, empty, nil, shrinking/growing/permuted lists, duplicates) for round robin, random (injected seeded fastrand.RNG) and the three middlewares; concurrent callers: every size 0..64 and every caller count 1..32 (thorough: the full 65 x 32 grid) with real goroutines; random share over 64 n draws; fastrand.RNG.Uint32n against the multiply-shift model. nontrivial = more than one host (and more than one call / caller)", true)
+	g.w.Close("regression corpus (single host, empty/nil list, counter at and across the uint64 wrap, duplicate entries); the sd constructors (which balancer is built for GOMAXPROCS 1/2/16 x fixed/other subscriber x sizes, start of the counter); every exported middleware constructor of proxy/balancing.go by name, the balancer looked up in the model's table (generic ones with GOMAXPROCS = 1 and > 1; round robin: fairness of the hosts the next proxy sees, GOMAXPROCS > 1; random: membership + share; generic: membership; subscriber variants also over scripted dynamic subscribers); a stable list with failing lookups in between (patterns Sa, Se, aS, Saa, SaeSnbS, SSSSa, SbS, single failure, random; Host() and the round robin middlewares; concurrent callers with every other lookup failing); request reuse through every subscriber-taking middleware constructor (same request object / CloneRequest / Clone() sent again after the list changed to other hosts, empty, an error; a fixed list with one request re-sent M times); a host slice shared between a round robin balancer (mid cycle) and sd.NewRandomFixedSubscriber, sizes up to 150 (thorough 257), slice compared before/after; balancers built by NewBalancer / the generic middleware constructors while GOMAXPROCS = 1 and used by 8-16 parallel callers after it was raised (long runs, M a multiple of n); instance reuse (one balancer: sequence, concurrent burst, sequence; one middleware instance under concurrent callers with distinct requests); every list size 0..64 x constructors (FixedSubscriber with lura's own start position / SubscriberFunc with the counter set through the hook) x call counts {n, 2n+1, 3n+2} (thorough: 8 call counts, 4 counter positions) sequentially, and through the round robin middleware; scripted dynamic subscribers (errors, empty, nil, shrinking/growing/permuted lists, duplicates) for round robin, random (injected seeded fastrand.RNG) and the three middlewares; concurrent callers: every size 0..64 and every caller count 1..32 (thorough: the full 65 x 32 grid) with real goroutines; random share over 64 n draws; fastrand.RNG.Uint32n against the multiply-shift model. nontrivial = more than one host (and more than one call / caller)", true)
 }
